@@ -49,6 +49,10 @@ func coqOp(s *Step) string {
 	switch s.O {
 	case "enq":
 		return "(OEnq " + coqItem(s.K, s.Due, s.ID) + ")"
+	case "enqhold":
+		return "(OEnqHeld " + coqItem(s.K, s.Due, s.ID) + ")"
+	case "enqgo":
+		return "(OEnqGo " + coqItem(s.K, s.Due, s.ID) + ")"
 	case "deq":
 		return "(ODeq " + hx.CoqZ(s.K) + ")"
 	case "adv":
@@ -119,6 +123,9 @@ func c06Record(ctx *core.Ctx, in c06Input, obs []Obs, direct int, note string) {
 	if kinds["race"] > 0 {
 		mode += "+race"
 	}
+	if kinds["enqhold"] > 0 {
+		mode += "+inflight"
+	}
 	bucket := func(n int) string {
 		switch {
 		case n == 0:
@@ -147,7 +154,7 @@ func c06Record(ctx *core.Ctx, in c06Input, obs []Obs, direct int, note string) {
 		Kind:     "script",
 		Input:    hx.MustJSON(in),
 		Observed: obs,
-		Facts:    map[string]any{"mode": "script", "gated": gated, "races": kinds["race"]},
+		Facts:    map[string]any{"mode": "script", "gated": gated, "races": kinds["race"], "inflight": kinds["enqhold"]},
 		Class:    class,
 		Trivial:  nexec == 0,
 		Coq:      sb.String(),
@@ -173,6 +180,14 @@ func c06RunScript(ctx *core.Ctx, in c06Input) error {
 	var obs []Obs
 	for i := range in.Steps {
 		o, err := r.Do(&in.Steps[i])
+		if err == errLockStuck {
+			// the model says the call is atomic and returns; the implementation cannot even take the lock
+			c06Record(ctx, in, obs, 1, fmt.Sprintf("step %d: %v", i, err))
+			if !r.Finish() {
+				scriptsBroken = true
+			}
+			return nil
+		}
 		if err == errNoRest {
 			scriptsBroken = true
 			c06Record(ctx, in, obs, 2, err.Error())
@@ -220,6 +235,14 @@ func c06GenScript(ctx *core.Ctx, r *hx.Rand, style int) {
 	do := func(st Step) bool {
 		in.Steps = append(in.Steps, st)
 		o, err := run.Do(&in.Steps[len(in.Steps)-1])
+		if err == errLockStuck {
+			broken = true
+			c06Record(ctx, in, obs, 1, fmt.Sprintf("step %d: %v", len(in.Steps)-1, err))
+			if !run.Finish() {
+				scriptsBroken = true
+			}
+			return false
+		}
 		if err != nil {
 			broken = true
 			scriptsBroken = true
@@ -318,6 +341,8 @@ func c06GenScript(ctx *core.Ctx, r *hx.Rand, style int) {
 		return t
 	}
 	nsteps := r.Range(4, 22)
+	var inflight *liveItem                        // the Enqueue currently held in flight
+	inflightStyle := style == 0 && r.Chance(1, 3) // scripts built around in-flight Enqueue calls
 	gatedStyle := style == 1 || style == 3
 	if style == 1 && r.Chance(1, 5) {
 		// Close burst: the loop is held (in the callback, or at Now()/NewTimer()), 2..4 Close calls
@@ -360,6 +385,45 @@ func c06GenScript(ctx *core.Ctx, r *hx.Rand, style int) {
 		var st Step
 		x := r.Intn(100)
 		held := lastPos == 1 || lastPos == 2 || lastPos == 4
+		if inflight != nil {
+			// an Enqueue is held in flight (it has p.lock): only steps that do not need the lock
+			switch y := r.Intn(100); {
+			case y < 30:
+				st = Step{O: "enqgo", K: inflight.k, Due: inflight.due, ID: inflight.id}
+				inflight = nil
+			case y < 60:
+				st = Step{O: "close"}
+				closed = true
+				ctx.Sink.Count("op/close-inflight")
+			case y < 80:
+				now = pickAdv()
+				st = Step{O: "adv", T: now}
+			case y < 90 && held:
+				st = Step{O: "rel"}
+			default:
+				st = Step{O: "gates", Gn: r.Chance(1, 3), Gt: r.Chance(1, 4), Gc: r.Chance(1, 3)}
+			}
+			if !do(st) {
+				return
+			}
+			continue
+		}
+		if (inflightStyle && r.Chance(1, 4)) || r.Chance(1, 25) {
+			// an Enqueue that passes the stopped test now and is held inside (in its item's Key(),
+			// under p.lock) until a later step lets it go - possibly after Close has returned
+			e := mkEnq()
+			if inflightStyle && r.Chance(1, 2) {
+				e.Due = now - int64(r.Intn(2))*ms // due at once when it lands
+				live[e.K] = liveItem{e.K, e.Due, e.ID}
+			}
+			e.O = "enqhold"
+			inflight = &liveItem{e.K, e.Due, e.ID}
+			ctx.Sink.Count("op/enqhold")
+			if !do(e) {
+				return
+			}
+			continue
+		}
 		switch {
 		case (held || closed) && r.Chance(1, 6):
 			// Close while the loop is held at a seam / inside a callback (the first call, or one
@@ -429,6 +493,12 @@ func c06GenScript(ctx *core.Ctx, r *hx.Rand, style int) {
 		if !do(st) {
 			return
 		}
+	}
+	if inflight != nil && !broken {
+		if !do(Step{O: "enqgo", K: inflight.k, Due: inflight.due, ID: inflight.id}) {
+			return
+		}
+		inflight = nil
 	}
 	// open every seam, drain (everything still live must run), close
 	if !do(Step{O: "gates"}) {
